@@ -219,9 +219,13 @@ func modelOf(p *driver.Plan) Model {
 		in = p.Inputs[0]
 	}
 	fails := failSet(p)
-	stage, _ := baseStage(p.Stage)
+	stage, isFork := baseStage(p.Stage)
 	stop := len(in) // fail-fast: index of first failing element
-	failfast := p.Mode == "lift"
+	// fork + Lift with failing elements: every worker stops at its own first
+	// failure while the others go on, so the exact result depends on the
+	// distribution; the model is then an upper bound (that of Try) used for
+	// the "nothing invented, nothing twice" clauses only.
+	failfast := p.Mode == "lift" && !isFork
 	if failfast {
 		if ff := firstFail(p, len(in)); ff >= 0 {
 			stop = ff
@@ -609,6 +613,12 @@ func (s *Sys) onMulti(name string, before []driver.Obs[error], want []int, id in
 	}
 }
 
+// planInterval is the Throttling interval / Emit frequency of a plan: whole
+// milliseconds plus an optional sub-millisecond part.
+func planInterval(p *driver.Plan) time.Duration {
+	return time.Duration(p.IntervalMs)*time.Millisecond + time.Duration(p.X("interval_us"))*time.Microsecond
+}
+
 // BuildStage creates the stage named by the plan with producers and consumers.
 func BuildStage(e *driver.Env, clause string) *Sys {
 	p := e.Plan
@@ -617,7 +627,7 @@ func BuildStage(e *driver.Env, clause string) *Sys {
 	s.fork = isFork
 	s.multiset = isFork
 	ctx := e.Ctx
-	freq := time.Duration(p.IntervalMs) * time.Millisecond
+	freq := planInterval(p)
 	if isFork {
 		par := p.Par
 		switch stage {
@@ -686,7 +696,13 @@ func BuildStage(e *driver.Env, clause string) *Sys {
 		if len(p.Inputs) > 0 {
 			xs = p.Inputs[0]
 		}
-		s.consumeOut(pipe.Seq(xs...))
+		// the caller owns its slice again as soon as Seq has returned
+		buf := append([]int(nil), xs...)
+		ch := pipe.Seq(buf...)
+		for i := range buf {
+			buf[i] = -7777 - i
+		}
+		s.consumeOut(ch)
 	case "ToSeq":
 		in := s.input(0)
 		simrt.GoEnv("toseq", func() {
